@@ -20,18 +20,24 @@ theorem scanRows_info (ord : Nat) : ∀ (fxs : List Fx) (row : Nat) (st : ScanSt
       simp [scanRows] at h
   | cons fx tl ih =>
     intro row st
-    by_cases hv : cntAt st.cnt ord row ≠ 0
-    · have he : scanRows ord (fx :: tl) row st = .endMod { clampBpm st with rowCount := (clampBpm st).rowCount - 1 } row := by
-        rw [scanRows, if_pos hv]; rfl
+    by_cases hv : st.rowCountTotal > rowLimit ∨ cntAt st.cnt ord row ≠ 0
+    · obtain ⟨s', r0, he, _, _, hs3⟩ := scanRows_cons_stop ord fx tl row st hv
       constructor
       · intro st' o2 h; rw [he] at h; cases h
       · intro st' r' h
         rw [he] at h
         cases h
-        rfl
-    · have hv0 : cntAt st.cnt ord row = 0 := by simpa using hv
+        exact hs3
+    · have hv0 : cntAt st.cnt ord row = 0 := by
+        by_cases h0 : cntAt st.cnt ord row = 0
+        · exact h0
+        · exact absurd (Or.inr h0) hv
+      have hg0 : st.rowCountTotal ≤ rowLimit := by
+        by_cases h0 : st.rowCountTotal > rowLimit
+        · exact absurd (Or.inl h0) hv
+        · omega
       have hinfo : (visitStep ord row fx (clampBpm st)).info = st.info := by rw [visitStep_info]; rfl
-      have hf := scanRows_cons_fresh' ord fx tl row st hv0
+      have hf := scanRows_cons_fresh' ord fx tl row st hv0 hg0
       cases fx with
       | jump j =>
         simp only at hf
@@ -193,10 +199,10 @@ theorem scanOrders_frame (m : LinMod) (ep chain : Nat) (hc : chain ≠ 0xff) (hr
                 have hF4 : Frame chain st st' := hF3.trans (Frame.of_eq chain st3 st' hc' hi')
                 have hl4 : m.len ≤ st'.ctl.length := by rw [hF4.ctlLen]; exact hl
                 have h' : scanOrders m ep chain fuel (ord2.getD (ord + 1))
-                    { st' with frameCount := st'.frameCount + st'.rowCount * st'.speed, rowCount := 0 } =
+                    { st' with frameCount := st'.frameCount + st'.rowCount * st'.speed, rowCount := 0, rowCountTotal := 0 } =
                     .finished stF oF rF := h
                 have hF5 := ih _ _ _ _ _ (by exact hl4) h'
-                have hF45 : Frame chain st' { st' with frameCount := st'.frameCount + st'.rowCount * st'.speed, rowCount := 0 } :=
+                have hF45 : Frame chain st' { st' with frameCount := st'.frameCount + st'.rowCount * st'.speed, rowCount := 0, rowCountTotal := 0 } :=
                   Frame.of_eq chain st' _ rfl rfl
                 exact (hF4.trans hF45).trans hF5
 
@@ -412,7 +418,7 @@ theorem accepted_facts (m : LinMod) (ep chain : Nat) (ctl0 : List Nat) (info0 : 
     show ((List.replicate (o1 + 1) ({ speed := m.spd, bpm := m.bpm } : OrdInfo)).getD o1 {}).speed = m.spd ∧ _
     rw [getD_replicate_lt _ _ _ _ (by omega)]
     exact ⟨rfl, rfl⟩
-  obtain ⟨g1, s0, _, F, pF, _, _, _, _, _, _, _, _, _, _, _, g4, g2, g3⟩ :=
+  obtain ⟨g1, s0, _, F, pF, _, _, _, _, _, _, _, _, _, _, _, g4, g2, g3, _⟩ :=
     sim_scanOrders m ep chain ctl0 info0 e o1 stF oF rE HS hl hinfo hav rS hrE hscan
   refine ⟨g1, ?_, ?_⟩
   · rw [r5]; exact g2
